@@ -10,7 +10,7 @@
      shape_pres h                                             the user hook h keeps the set of series and their lengths *)
 From Coq Require Import ZArith List Bool PrimFloat.
 Import ListNotations.
-Require Import PyBase Solver SolverFacts SolverF Tracer TracerFacts TracerF TracerExamples.
+Require Import PyBase Solver SolverFacts SolverF SolveAll Tracer TracerSolve TracerFacts TracerFacts2 TracerF TracerExamples.
 Open Scope Z_scope.
 
 Section C17.
@@ -75,29 +75,50 @@ Section C17.
     = (let '(s', out) := solve_t_M ev before after d o t s in ((s', tr), out)).
   Proof. exact (fun H1 H2 H3 => trace_off_writes_nothing num sub absf ltb isfin zero cfg a reset ev before after H1 H2 H3 d o t s tr). Qed.
 
-  (* solve_period(label): unknown label -> KeyError in both; otherwise as solve_t at the label's position *)
-  Theorem C17_trace_noninterference_solve_period cfg a reset span d o lab s (tr : traces num) :
+  (* solve_period(label, trace=, reset=), for ANY label type and span lookup (`locate` = the instance's
+     _locate_period_in_span: get_loc / index / the fallback): a label the lookup cannot turn into an int -> KeyError in
+     both; otherwise as solve_t at the position found.  The untraced side is SolveAll.solve_period_M, the reference
+     model of SolverMixin.solve_period. *)
+  Theorem C17_trace_noninterference_solve_period cfg a reset (L : Type) (locate : L -> locres) d o lab s (tr : traces num) :
     shape_pres num ev -> shape_pres num before -> shape_pres num after ->
-    (forall q, locate span lab = Some q -> truthy a = true -> ready num cfg a reset (Z.of_nat q) (vals_of s) tr) ->
-    let R := traced_solve_period num sub absf ltb isfin zero cfg a reset ev before after span d o lab s tr in
-    (fst (fst R), snd R) = plain_solve_period num sub absf ltb isfin zero ev before after span d o lab s.
-  Proof. exact (fun H1 H2 H3 => trace_noninterference_solve_period num sub absf ltb isfin zero cfg a reset ev before after H1 H2 H3 span d o lab s tr). Qed.
+    (forall t, locate lab = LInt t -> truthy a = true -> ready num cfg a reset t (vals_of s) tr) ->
+    let R := traced_solve_period_all num sub absf ltb isfin zero cfg a reset ev before after L locate d o lab s tr in
+    (fst (fst R), snd R) = solve_period_M num sub absf ltb isfin zero ev before after L locate d o lab s.
+  Proof. exact (fun H1 H2 H3 => trace_noninterference_solve_period_all num sub absf ltb isfin zero cfg a reset ev before after H1 H2 H3 L locate d o lab s tr). Qed.
 
-  (* solve(): the keywords are threaded to every period's solve_t.  If trace_t cannot fail at any of the periods to be
-     solved (in the initial state), the whole multi-period run — flags, the exception that stops it, every period's
-     values / status / iterations — equals the untraced run. *)
-  Theorem C17_trace_noninterference_solve cfg a reset d o ps s (tr : traces num) :
+  (* solve(start=, end=, trace=, reset=, ...): min_iter/max_iter and label validation, the periods iter_periods yields
+     (defaults from lags / leads), then one solve_t per period with the keywords threaded through.  If trace_t cannot
+     fail (in the initial state) at any position solve() is going to visit, the whole multi-period run — the three
+     returned lists, the exception that stops it, every period's values / status / iterations — equals
+     SolverMixin.solve without the keywords (SolveAll.solve_M). *)
+  Theorem C17_trace_noninterference_solve cfg a reset (L : Type) (locate : L -> locres) d o span start end_ s (tr : traces num) :
     shape_pres num ev -> shape_pres num before -> shape_pres num after ->
-    (truthy a = true -> forall q, In q ps -> ready num cfg a reset (Z.of_nat q) (vals_of s) tr) ->
-    let R := traced_solve num sub absf ltb isfin zero cfg a reset ev before after d o ps s tr in
-    (fst (fst R), snd R) = plain_solve num sub absf ltb isfin zero ev before after d o ps s.
-  Proof. exact (fun H1 H2 H3 => trace_noninterference_solve num sub absf ltb isfin zero cfg a reset ev before after H1 H2 H3 d o ps s tr). Qed.
+    (truthy a = true ->
+     forall t, In t (solve_targets num L locate d o span start end_) -> ready num cfg a reset t (vals_of s) tr) ->
+    let R := traced_solve_all num sub absf ltb isfin zero cfg a reset ev before after L locate d o span start end_ s tr in
+    (fst (fst R), snd R) = solve_M num sub absf ltb isfin zero ev before after L locate d o span start end_ s.
+  Proof. exact (fun H1 H2 H3 => trace_noninterference_solve_all num sub absf ltb isfin zero cfg a reset ev before after H1 H2 H3 L locate d o span start end_ s tr). Qed.
 
-  Theorem C17_trace_off_solve_writes_nothing cfg a reset d o ps s (tr : traces num) :
+  (* ... the same for ANY list of (position, label) pairs an overridden iter_periods may yield *)
+  Theorem C17_trace_noninterference_run_periods cfg a reset (L : Type) d o (ps : list (Z * L)) s (tr : traces num) acc :
+    shape_pres num ev -> shape_pres num before -> shape_pres num after ->
+    (truthy a = true -> forall t, In t (map fst ps) -> ready num cfg a reset t (vals_of s) tr) ->
+    let R := traced_run_periods num sub absf ltb isfin zero cfg a reset ev before after L d o ps s tr acc in
+    (fst (fst R), snd R) = run_periods num sub absf ltb isfin zero ev before after L d o ps s acc.
+  Proof. exact (fun H1 H2 H3 => traced_run_periods_erase num sub absf ltb isfin zero cfg a reset ev before after H1 H2 H3 L d o ps s tr acc). Qed.
+
+  (* solve() that rejects its arguments (min_iter > max_iter, unknown start / end label, empty span, lags / leads
+     beyond the span) or has no period to solve: no value, status, iteration count or Trace changes *)
+  Theorem C17_traced_solve_no_targets cfg a reset (L : Type) (locate : L -> locres) d o span start end_ s (tr : traces num) :
+    solve_targets num L locate d o span start end_ = [] ->
+    fst (traced_solve_all num sub absf ltb isfin zero cfg a reset ev before after L locate d o span start end_ s tr) = (s, tr).
+  Proof. exact (traced_solve_all_no_targets num sub absf ltb isfin zero cfg a reset ev before after L locate d o span start end_ s tr). Qed.
+
+  Theorem C17_trace_off_solve_writes_nothing cfg a reset (L : Type) (locate : L -> locres) d o span start end_ s (tr : traces num) :
     shape_pres num ev -> shape_pres num before -> shape_pres num after ->
     truthy a = false ->
-    snd (fst (traced_solve num sub absf ltb isfin zero cfg a reset ev before after d o ps s tr)) = tr.
-  Proof. exact (fun H1 H2 H3 => trace_off_solve_writes_nothing num sub absf ltb isfin zero cfg a reset ev before after H1 H2 H3 d o ps s tr). Qed.
+    snd (fst (traced_solve_all num sub absf ltb isfin zero cfg a reset ev before after L locate d o span start end_ s tr)) = tr.
+  Proof. exact (fun H1 H2 H3 => trace_off_solve_all_writes_nothing num sub absf ltb isfin zero cfg a reset ev before after H1 H2 H3 L locate d o span start end_ s tr). Qed.
 
   (* When trace_t DOES fail at 'start' (unknown name -> KeyError, t outside the span -> IndexError, width mismatch ->
      ValueError): that exception is what the call raises, before the base class is entered; values, statuses and
@@ -203,6 +224,47 @@ Section C17.
     let names := names_of cfg (length (vals_of s)) a in
     nth p tr' (empty_trace num) = mkTrace names [LEnd] [snap num zero (vals_of s') t names].
   Proof. exact (fun H1 H2 H3 => trace_reset_keeps_last_only num sub absf ltb isfin zero cfg a ev before after H1 H2 H3 d o t s tr p s' tr'). Qed.
+  (* REPEATED SOLVES (default reset=False) of a period traced before with as many names: nothing the Trace held is lost
+     and the run's labels start, before, 0, 1..k [, end] and snapshots are appended in order.  The Trace's `names`
+     stay those of the call that created it (see C17_trace_stale_names_refuted below). *)
+  Theorem C17_trace_accumulates cfg a d o t s (tr : traces num) p s' tr' out :
+    shape_pres num ev -> shape_pres num before -> shape_pres num after ->
+    truthy a = true ->
+    names_valid num (vals_of s) t (names_of cfg (length (vals_of s)) a) ->
+    py_pos (length tr) t = Some p -> length tr = length (status s) ->
+    is_empty num (nth p tr (empty_trace num)) = false ->
+    width_ok num (nth p tr (empty_trace num)) (length (names_of cfg (length (vals_of s)) a)) ->
+    traced_solve_t cfg a false ev before after d o t s tr = ((s', tr'), out) ->
+    out = Ret true \/ out = Ret false \/ out = Raise NonConvergenceError ->
+    let names := names_of cfg (length (vals_of s)) a in
+    let old := nth p tr (empty_trace num) in
+    let v0 := seeded num zero d o s p in
+    let v1 := fst (before t (errors o) (catch_first o) 0%nat v0) in
+    exists k x,
+      status s' = upd p x (status s) /\ iters s' = upd p (Z.of_nat k) (iters s) /\
+      (out = Ret true <-> x = Solved) /\
+      nth p tr' (empty_trace num)
+      = mkTrace (tr_names old)
+          (tr_index old ++ LStart :: LBefore :: map LIter (seq 0 (S k)) ++ (if st_eqb x Solved then [LEnd] else []))
+          (tr_values old ++ snap num zero (vals_of s) t names :: snap num zero v0 t names
+             :: map (fun j => snap num zero (st_after num ev o t v1 j) t names) (seq 0 (S k))
+             ++ (if st_eqb x Solved then [snap num zero (vals_of s') t names] else [])).
+  Proof. exact (fun H1 H2 H3 => trace_accumulates num sub absf ltb isfin zero cfg a ev before after H1 H2 H3 d o t s tr p s' tr' out). Qed.
+
+  (* Which names the period's Trace carries after a traced run: those of THIS call iff the Trace was empty or
+     reset=True; otherwise the names of the earlier call are kept. *)
+  Theorem C17_trace_names_after_run cfg a reset d o t s (tr : traces num) p s' tr' out :
+    shape_pres num ev -> shape_pres num before -> shape_pres num after ->
+    truthy a = true ->
+    names_valid num (vals_of s) t (names_of cfg (length (vals_of s)) a) ->
+    py_pos (length tr) t = Some p -> length tr = length (status s) ->
+    reset = true \/ width_ok num (nth p tr (empty_trace num)) (length (names_of cfg (length (vals_of s)) a)) ->
+    traced_solve_t cfg a reset ev before after d o t s tr = ((s', tr'), out) ->
+    out = Ret true \/ out = Ret false \/ out = Raise NonConvergenceError ->
+    tr_names (nth p tr' (empty_trace num))
+    = if is_empty num (nth p tr (empty_trace num)) || reset then names_of cfg (length (vals_of s)) a
+      else tr_names (nth p tr (empty_trace num)).
+  Proof. exact (fun H1 H2 H3 => trace_names_after_run num sub absf ltb isfin zero cfg a ev before after H1 H2 H3 reset d o t s tr p s' tr' out). Qed.
 End C17.
 
 (* FINDING #16 (still present).  Without the width guard non-interference is false: valid names, t in the span,
@@ -217,6 +279,19 @@ Theorem C17_trace_width_mismatch_refuted :
     snd (f_traced_solve_t sc cfg a false d o t s tr) = Raise ValueError /\
     fst (fst (f_traced_solve_t sc cfg a false d o t s tr)) = s.
 Proof. exact trace_width_mismatch_refuted. Qed.
+
+(* NEW FINDING (same root as #16).  "Records it faithfully" fails for a repeated traced solve with ANOTHER name list of
+   the same length (default reset=False): the call succeeds, but the Trace keeps the names of the first call while
+   the appended snapshots hold the values of the variables named NOW — V1's values filed under the column V0. *)
+Theorem C17_trace_stale_names_refuted :
+  exists (sc : scripts) (cfg : tcfg) (d : mdesc) (o : fopts) (t : Z) (s : fstate) (tr : ftraces) (a : targ) (p : nat),
+    truthy a = true /\ ready float cfg a false t (vals_of s) tr /\ py_pos (length tr) t = Some p /\
+    let R := f_traced_solve_t sc cfg a false d o t s tr in
+    snd R = Ret true /\
+    tr_names (nth p (snd (fst R)) (empty_trace float)) <> names_of cfg (length (vals_of s)) a /\
+    last (tr_values (nth p (snd (fst R)) (empty_trace float))) []
+    = snap float fzero (vals_of (fst (fst R))) t (names_of cfg (length (vals_of s)) a).
+Proof. exact trace_stale_names_refuted. Qed.
 
 (* Outside the property's domain (t not in the span) the exception class can differ: IndexError from trace_t before
    the base class's ValueError for min_iter > max_iter. *)
@@ -240,6 +315,11 @@ Print Assumptions C17_trace_off_writes_nothing.
 Print Assumptions C17_trace_noninterference_solve_period.
 Print Assumptions C17_trace_noninterference_solve.
 Print Assumptions C17_trace_off_solve_writes_nothing.
+Print Assumptions C17_trace_noninterference_run_periods.
+Print Assumptions C17_traced_solve_no_targets.
+Print Assumptions C17_trace_accumulates.
+Print Assumptions C17_trace_names_after_run.
+Print Assumptions C17_trace_stale_names_refuted.
 Print Assumptions C17_traced_solve_t_start_fails.
 Print Assumptions C17_trace_shape_solved.
 Print Assumptions C17_trace_shape_unsolved.
